@@ -29,7 +29,8 @@ import (
 // 2 response, 3 initiation, 4 data (a = id), 5 keepalive received,
 // 10 initiation sent, 11 response sent, 12 keepalive sent, 13 data sent (a = id),
 // 14 TUN write (a = id), 15 datagram for which Bind.Send returned an error (a = 0 initiation,
-// 1 response, 2 keepalive, 3 data), 6 device down, 20 end of observation.
+// 1 response, 2 keepalive, 3 data), 6 device down, 7 hook: keypairs a seconds older,
+// 8 hook: handshakeAttempts := a, 20 end of observation.
 type Item struct {
 	C   int    `json:"c"`
 	T   int64  `json:"t"` // microseconds
@@ -60,7 +61,7 @@ type Case struct {
 
 var epoch = time.Now()
 
-const offsetUs = 100_000_000 // traces start at 100 s: Peer.Start computes now - 6 s
+const offsetUs = 1_000_000_000 // traces start at 1000 s: Peer.Start computes now - 6 s, key ages are shifted by up to 181 s
 
 func us(t time.Time) int64 { return t.Sub(epoch).Microseconds() + offsetUs }
 
@@ -99,6 +100,18 @@ func (s *scen) failInitiation(k int) {
 		}
 		return len(bufs), nil
 	}
+}
+
+// shiftKeys makes every keypair of the peer secs older (VerifShiftKeypairAges).
+func (s *scen) shiftKeys(secs int) {
+	s.in(7, uint64(secs), 0)
+	s.w.Dev.VerifShiftKeypairAges(cosim.NoisePK(s.p.Pub), time.Duration(secs)*time.Second)
+}
+
+// setAttempts presets handshakeAttempts (VerifSetHandshakeAttempts, /repo/device/verif_c14.go).
+func (s *scen) setAttempts(n int) {
+	s.in(8, uint64(n), 0)
+	s.w.Dev.VerifSetHandshakeAttempts(cosim.NoisePK(s.p.Pub), uint32(n))
 }
 
 func (s *scen) down() {
@@ -480,7 +493,65 @@ func run(spec Spec) Case {
 			time.Sleep(time.Until(t0.Add(2800 * ms)))
 		}
 
+	case "regive":
+		// give-up (attempt counter preset to 19 by the hook, so the next expiry gives up) with
+		// something queued, on a first handshake or on a RE-handshake after an earlier session
+		// (key made 181 s old: zero-key timer still pending); then new traffic and an answer:
+		// only the new packet may be sent
+		if spec.Var == "session" {
+			if !s.establish("init") {
+				break
+			}
+			time.Sleep(50 * ms)
+			s.shiftKeys(181)
+			if i0 := s.waitInit(1, s.since()); i0 != nil {
+				time.Sleep(time.Until(i0.T.Add(5200 * ms))) // the first initiation's 5 s rate limit is over
+			}
+		}
+		n0 := s.countInit()
+		s.tun(per)
+		i1 := s.waitInit(n0+1, s.since()+2*sec)
+		if i1 == nil {
+			s.err = "no initiation for the queued packet"
+			break
+		}
+		time.Sleep(40 * ms)
+		s.setAttempts(19)
+		time.Sleep(time.Until(i1.T.Add(6 * sec)))
+		s.tun(1)
+		if i2 := s.waitInit(n0+2, s.since()+2*sec); i2 != nil {
+			time.Sleep(20 * ms)
+			s.answer(i2)
+		} else {
+			s.err = "no initiation after new traffic"
+		}
+		time.Sleep(700 * ms)
+
 	case "giveup":
+		if spec.Var == "resess" {
+			// the full 20 transmissions of a RE-handshake (earlier session, key 181 s old)
+			if !s.establish("init") {
+				break
+			}
+			time.Sleep(50 * ms)
+			s.shiftKeys(181)
+			if i0 := s.waitInit(1, s.since()); i0 != nil {
+				time.Sleep(time.Until(i0.T.Add(5200 * ms)))
+			}
+			n0 := s.countInit()
+			t0 := time.Now()
+			s.tun(per)
+			time.Sleep(time.Until(t0.Add(20*5334*ms + 900*ms)))
+			s.tun(1)
+			if init := s.waitInit(n0+21, s.since()+2*sec); init != nil {
+				time.Sleep(20 * ms)
+				s.answer(init)
+			} else {
+				s.err = "no initiation after new traffic"
+			}
+			time.Sleep(600 * ms)
+			break
+		}
 		if spec.Pka == 0 {
 			s.tun(per)
 		} else {
@@ -824,6 +895,8 @@ func quickSpecs(r *rand.Rand) []Spec {
 		{Kind: "retx", N: 2, Per: 3, Delay: d()},
 		{Kind: "retx", N: 2, Pka: 25, Delay: d()},
 		{Kind: "retx", N: 2, Pka: 1, Delay: d()},
+		{Kind: "regive", Per: 1, Var: "session", Delay: d()},
+		{Kind: "regive", Per: 2, Delay: d()},
 		{Kind: "retxerr", N: 2, Per: 1, Delay: d()},
 		{Kind: "retxerr", N: 1, Per: 2, Delay: d()},
 		{Kind: "bounce", Pka: 2, Delay: d()},
@@ -867,6 +940,7 @@ func thoroughSpecs(r *rand.Rand) []Spec {
 	sp = append(sp,
 		Spec{Kind: "giveup", Per: 1, Delay: d()},
 		Spec{Kind: "giveup", Per: 2, Var: "tun", Delay: d()},
+		Spec{Kind: "giveup", Per: 2, Var: "resess", Delay: d()},
 		Spec{Kind: "giveup", Per: 1, Delay: d()},
 		Spec{Kind: "giveup", Pka: 25, Per: 1, Delay: d()},
 		Spec{Kind: "giveup", Pka: 1, Per: 1, Delay: d()},
